@@ -22,34 +22,60 @@ def literal(node, where):
     raise TranslationError(f"{where}: not a numeric literal: {ast.unparse(node)}")
 
 
+def module_consts(tree, fname):
+    """Module-level names bound (plain or annotated assignment) to a numeric literal; a name bound twice is an error when used."""
+    consts, twice, seen = {}, set(), set()
+    for node in tree.body:
+        tgt = None
+        if isinstance(node, ast.Assign) and len(node.targets) == 1 and isinstance(node.targets[0], ast.Name):
+            tgt, val = node.targets[0].id, node.value
+        elif isinstance(node, ast.AnnAssign) and isinstance(node.target, ast.Name) and node.value is not None:
+            tgt, val = node.target.id, node.value
+        if tgt is None:
+            continue
+        if tgt in seen:
+            twice.add(tgt)
+            consts.pop(tgt, None)
+        elif isinstance(val, ast.Constant) and type(val.value) in (int, float):
+            consts[tgt] = Fraction(repr(val.value))
+        seen.add(tgt)
+    return consts, twice
+
+
 def extract():
     out = {}
     for fname, names in WANTED.items():
         tree = ast.parse((PKG / fname).read_text())
-        found = {}
-        for node in tree.body:
-            if isinstance(node, ast.Assign) and len(node.targets) == 1 and isinstance(node.targets[0], ast.Name):
-                n = node.targets[0].id
-                if n in names:
-                    if n in found:
-                        raise TranslationError(f"{fname}: {n} assigned twice")
-                    found[n] = literal(node.value, f"{fname}:{n}")
+        consts, twice = module_consts(tree, fname)
         for n in names:
-            if n not in found:
-                raise TranslationError(f"{fname}: constant {n} not found")
-        out.update(found)
+            if n in twice:
+                raise TranslationError(f"{fname}: {n} assigned twice")
+            if n not in consts:
+                raise TranslationError(f"{fname}: constant {n} not found (or not a numeric literal)")
+            out[n] = consts[n]
     # hello API version literal and the supported-major bound
     ctree = ast.parse((PKG / "connection.py").read_text())
     src = (PKG / "connection.py").read_text()
+    cconsts, ctwice = module_consts(ctree, "connection.py")
+
+    def clit(node, where):
+        if isinstance(node, ast.Name):
+            if node.id in ctwice:
+                raise TranslationError(f"connection.py: {node.id} assigned twice")
+            if node.id in cconsts:
+                return cconsts[node.id]
+        return literal(node, where)
     for node in ast.walk(ctree):
-        if isinstance(node, ast.Compare) and ast.unparse(node.left) == "api_version.major" and isinstance(node.ops[0], ast.Gt):
-            out["MAX_SUPPORTED_MAJOR"] = literal(node.comparators[0], "api_version.major >")
+        if isinstance(node, ast.Compare) and ast.unparse(node.left) == "api_version.major" and len(node.ops) == 1 and isinstance(node.ops[0], ast.Gt):
+            if "MAX_SUPPORTED_MAJOR" in out:
+                raise TranslationError("connection.py: api_version.major compared twice")
+            out["MAX_SUPPORTED_MAJOR"] = clit(node.comparators[0], "api_version.major >")
         if isinstance(node, ast.Call) and ast.unparse(node.func) == "HelloRequest":
             for k in node.keywords:
                 if k.arg == "api_version_major":
-                    out["HELLO_API_MAJOR"] = literal(k.value, "hello major")
+                    out["HELLO_API_MAJOR"] = clit(k.value, "hello major")
                 if k.arg == "api_version_minor":
-                    out["HELLO_API_MINOR"] = literal(k.value, "hello minor")
+                    out["HELLO_API_MINOR"] = clit(k.value, "hello minor")
     for k in ("MAX_SUPPORTED_MAJOR", "HELLO_API_MAJOR", "HELLO_API_MINOR"):
         if k not in out:
             raise TranslationError(f"connection.py: {k} not found")
@@ -90,9 +116,13 @@ def extract():
     out["BACKOFF_MAX"] = rlit(mx, "back-off maximum")
     caps = []
     for node in ast.walk(rtree):
+        val = None
         if isinstance(node, ast.Assign) and len(node.targets) == 1 and isinstance(node.targets[0], ast.Name) \
                 and node.targets[0].id == expname:
             val = node.value
+        elif isinstance(node, ast.AnnAssign) and isinstance(node.target, ast.Name) and node.target.id == expname and node.value is not None:
+            val = node.value
+        if val is not None:
             if is_call(val, "min", 2) and ast.unparse(val.args[0]) == "self._tries":
                 caps.append(rlit(val.args[1], "min(self._tries, .)"))
             else:
